@@ -32,6 +32,13 @@ def units():
 
 
 def run(ctx):
+    check_conversions(ctx)
+    repo = ctx.repo
+    _run_rest(ctx)
+
+
+def check_conversions(ctx):
+    """(ALG-15) convert_flux between every pair of unit families, round trips and transitivity"""
     repo = ctx.repo
     cf = ctx.fn(repo.func('sed.helpers', 'convert_flux'))
     U = units()
@@ -76,6 +83,9 @@ def run(ctx):
                    'inconsistent conversions: %s' % bad[:5], 'consistency')
     ctx.exhaustive = True
 
+
+def _run_rest(ctx):
+    repo = ctx.repo
     # ---- SED.read wiring: decided on the file round trip (roundtrip.py): reading with a converted flux unit multiplies every cell by the frequency of the
     # *same* cell, whatever order the reader reverses and converts in; the syntactic wiring rule is the fall-back and may only say "undecided"
     from .. import roundtrip
